@@ -27,7 +27,12 @@ def lit_text(nodes):
     return ''.join(x[1] for x in nodes)
 
 
+LISTED = None      # when set to a list, every directory the reference walk lists is appended (root-relative path as given)
+
+
 def listdir(path):
+    if LISTED is not None:
+        LISTED.append(path)
     try:
         with os.scandir(path) as it:
             return sorted(e.name for e in it)
@@ -125,6 +130,8 @@ def ref_glob(root, items, *, globstar=False, globstarlong=False, dot=False, ci=F
         return out
 
     def walk(u, cur):
+        if LISTED is not None:
+            LISTED.append(full(cur))          # the pattern goes through this directory
         kind, val = units[u]
         last = u == len(units) - 1
         if kind == 'gs':
